@@ -187,6 +187,42 @@ func ZZVerifC07ThenCopy() {
 	zzRYW(2)
 }
 
+// ZZVerifC06TwoCommits: three operations (write, mkdir, remove over the
+// paths n, n/m and g - n is fresh, g exists on the remote), a Commit, one more
+// write, a second Commit: both commits succeed and leave the remote equal to
+// the twin (nothing journalled for the first commit is replayed by the
+// second).
+func ZZVerifC06TwoCommits() {
+	remote := reftree.NewFS(zzInitial())
+	b := zzInitial()
+	c, err := fscache.NewMemCache(remote)
+	nd.Assume(err == nil)
+	paths := []string{"n", "n/m", "g"}
+	step := func(ops int) bool {
+		op := nd.Choose("op", ops)
+		p := paths[nd.Choose("path", len(paths))]
+		segs, _ := reftree.Norm(p)
+		switch op {
+		case 0:
+			data := nd.BytesUpTo("data", 1)
+			return c.WriteFile(p, data, filesystem.DefaultUnixFileMode) == nil && b.WriteFile(segs, data)
+		case 1:
+			return c.Remove(p) == nil && b.Remove(segs)
+		default:
+			return c.MkdirAll(p, filesystem.DefaultUnixDirMode) == nil && b.MkdirAll(segs)
+		}
+	}
+	for i := 0; i < nd.Param("TK", 3); i++ {
+		nd.Assume(step(3))
+	}
+	nd.Assert(c.Commit() == nil, "C06/twocommits-first-commit-succeeds")
+	nd.Assert(reftree.Same(remote, b, nil), "C06/twocommits-first-commit-tree")
+	nd.Assume(step(1))
+	nd.Assert(c.Commit() == nil, "C06/twocommits-second-commit-succeeds")
+	nd.Assert(reftree.Same(remote, b, nil), "C06/twocommits-second-commit-tree")
+	nd.Reach("C06/twocommits-end")
+}
+
 func zzCommit(k, f int) {
 	r0 := zzInitial()
 	remote := reftree.NewFS(zzInitial())
